@@ -144,7 +144,9 @@ def _execute(case, col, model):
                 back = parser.from_string(xml, type(obj))
     except Exception as e:
         return [Failure(exc_sig("parse-raise", e), f"xsdata rejects its own output: {type(e).__name__}: {e}\nxml: {xml}\nobject: {obj!r}\nmodel:\n{model.src}", case)]
-    if not deep_eq(back, obj):
+    # with ignore_default_attributes an attribute that *equals* its default (python equality: 24:00:00 == 24:00:00Z, 0.0 == -0.0)
+    # is left out and comes back as the default: equal under the values' own `==`, which is what the option documents
+    if not deep_eq(back, obj, own_eq=bool(cfg.get("ignore_default_attributes"))):
         return [Failure("roundtrip-differs/" + classify(case, obj, back), f"{first_diff(obj, back)}\nxml: {xml}\nmodel:\n{model.src}", case)]
     return []
 
